@@ -840,7 +840,11 @@ impl Property for C17 {
                 argv.push(name.into());
             }
             let shape = crate::props::c16::predicted_shape(&argv, &image);
-            let plan = if y.chance(0.65) { worldp::benign_plan(&mut y, &shape, 0.5) } else { Vec::new() };
+            let mut plan = if y.chance(0.65) { worldp::benign_plan(&mut y, &shape, 0.5) } else { Vec::new() };
+            if !plan.is_empty() && y.chance(0.25) {
+                // faults on the calls the program really makes (rehearsed on a copy of the disk)
+                plan = vec![PlanEntry { idx: y.next_u64(), kind: PlanKind::Measured(0) }];
+            }
             let stale: Vec<String> = OUT_FILES.iter().filter(|_| d.chance(0.35)).map(|(_, n)| n.to_string()).collect();
             let mut c = Rng::for_stream(seed, stream::CRASH);
             // crash an earlier incarnation somewhere inside its output phase (the last 9 tracked calls)
